@@ -276,6 +276,32 @@ def check(rep, ctx):
         site = next((n for n in ()), None)
         rep.check(R_G, qv is not None and not issues, construct=rfn.ref, stmt=key,
                   message="; ".join(f"{r}: {m}" for r, m, _ in issues) or "conversion not understood", file=file, line=rfn.node.lineno)
+    # exceptions: a well-formed batch (any record count, incl. zero) must not end in an internal error
+    R_X = rep.rule("C18-exceptions", "no internal error (IndexError, KeyError, AttributeError, AssertionError) can leave the batch reader: "
+                   "a well-formed batch of any record count is returned", floor=3)
+    from .streams import exc_class
+    I = ctx.interp
+    allowed = [exc_class(ctx, n) for n in ("ValueError", "kio.serial.errors:SerialError", "OverflowError")]
+    seen_exc = {}
+    for name, paths in (("read_batch", B["paths"]), ("read_record", RR["paths"]), ("read_header", hp)):
+        def visit(effects, outcome, value):
+            for e in effects:
+                if e[0] == "raise-site":
+                    seen_exc.setdefault((e[1], e[2]), e[3])
+                elif e[0] == "repeat":
+                    for f2, e2, o2, v2 in e[2]:
+                        visit(e2, o2, v2)
+            if outcome == "raise":
+                seen_exc.setdefault((value.cls.name if hasattr(value.cls, "name") and not hasattr(value.cls, "ref") else value.cls.ref,
+                                     value.attrs.get("__site__", "")), "")
+        for q in paths:
+            visit(q.effects, q.outcome, q.value)
+    for (exc, site), why in sorted(seen_exc.items()):
+        ok = exc.split(":")[-1] not in ("IndexError", "KeyError", "AttributeError", "AssertionError", "NameError", "LookupError")
+        where, f_ = site_loc(ctx, site) if site else ({"file": file, "line": 0}, "kio.records.readers")
+        rep.check(R_X, ok, construct=f_, stmt=stmt_at(ctx, site) if site else exc,
+                  message=f"{exc} can leave the batch reader ({why or 'raised here'}): a well-formed batch must be returned, a damaged one "
+                          f"rejected with a decode error", **where)
     # rewrite: write_prepared_batch ---------------------------------------------------------------------------------------
     batch = RA.I.sym_of_type(("param", "batch"), RA.cls("RecordBatch"))
     wp, wfn = RA.write_paths("write_prepared_batch", [batch])
